@@ -162,13 +162,18 @@ pub fn fsck_file(toks: &[&str]) -> String {
 pub fn pdtree(toks: &[&str]) -> String {
     let label = toks[2];
     let mut d = match crate::fsrun::mkfs("prodos",label) { Ok(d) => d, Err(e) => return format!("MKFS-ERR {}",e) };
-    let idx: Vec<usize> = toks[3].split(',').flat_map(|p| { if let Some((a,b)) = p.split_once('-') { (a.parse::<usize>().unwrap()..=b.parse::<usize>().unwrap()).collect::<Vec<usize>>() } else { vec![p.parse::<usize>().unwrap()] } }).collect();
+    // a trailing F: the last block is used to its last byte; otherwise the file ends 3 bytes before the end of its last block
+    let full = toks[3].ends_with('F');
+    let idx: Vec<usize> = toks[3].trim_end_matches('F').split(',').flat_map(|p| { if let Some((a,b)) = p.split_once('-') { (a.parse::<usize>().unwrap()..=b.parse::<usize>().unwrap()).collect::<Vec<usize>>() } else { vec![p.parse::<usize>().unwrap()] } }).collect();
     let mut f = match d.new_fimg(None,false,"T") { Ok(f) => f, Err(e) => return format!("ERR {}",e) };
     let end = idx.iter().max().map(|m| m+1).unwrap_or(0);
     for i in &idx { f.chunks.insert(*i,crate::fsrun::payload(1,*i,512)); }
-    f.set_eof(end*512);
+    let eof = if full { end*512 } else { end*512 - 3 };
+    // set_eof cuts the value to the 3 bytes of the field: hand over all its bytes, as a file image read from JSON would
+    f.eof = (0..4).map(|i| ((eof >> (8*i)) & 255) as u8).collect();
     f.access = vec![0xE3];
     if let Err(e) = d.put(&f) { return format!("refused {}",e); }
+    match d.get("T") { Ok(g) => if g.get_eof()!=eof { return format!("EOF-LOST stored {} read back {}",eof,g.get_eof()); }, Err(e) => return format!("GET-FAILED {}",e) }
     let img = d.get_img();
     let blk = |img: &mut Box<dyn a2kit::img::DiskImage>,b: usize| -> Vec<u8> { img.read_block(a2kit::fs::Block::PO(b)).unwrap_or(vec![0;512]) };
     let dirb = blk(img,2);
